@@ -67,10 +67,16 @@ CLAIMED["C14"] = (
     "trusts the table (40 lines); (int, \"\") sends the status with an empty body",
     "DESIGN.md section 4 C14")
 CLAIMED["C15"] = (
-    "rapid-generated chains with Recovery at any position, panics of seven value kinds (incl. runtime errors, http.ErrAbortHandler and failed injection) at any later position/phase, in three environments, over request sequences; oracle = recover() around ServeHTTP + interpreter of what had been sent before the panic + fresh-instance differential",
-    "Random applications with Recovery as middleware, group handler or first route handler, recording middleware before it and 1..3 later handler programs are hit with sequences of panicking and healthy requests: nothing may escape ServeHTTP, the status must be the one sent before the panic or 500 if none, the body must be the earlier bytes plus (development) HTML showing the panic text or (otherwise) exactly 'Internal Server Error', every recording middleware must complete its code after Next(), and healthy requests must answer like on a fresh instance.",
+    "rapid-generated chains with Recovery at any position, panics of eight value kinds (incl. runtime errors, http.ErrAbortHandler, typed-nil errors and failed injection) at any later position/phase, in three environments, over request sequences; oracle = recover() around ServeHTTP + interpreter of what had been sent before the panic + fresh-instance differential",
+    "Random applications with Recovery as middleware, group handler or first route handler, recording middleware before it and 1..3 later handler programs are hit with sequences of panicking and healthy requests: nothing may escape ServeHTTP, the status must be the one sent before the panic or 500 if none, the body must be the earlier bytes plus a tail that shows the panic value in development mode and shows neither the value nor stack frames otherwise, every recording middleware must complete its code after Next(), and healthy requests must answer like on a fresh instance.",
     "trusts the interpreter of the handler programs (40 lines); SetEnv is process-global and set per case, cases run one at a time",
     "DESIGN.md section 4 C15")
+
+CLAIMED["C11"] = (
+    "rapid-generated registration programs (nested Group with handlers, Get..Trace, Route, Any, Routes list/args forms, Combo, AutoHead toggles; handler slices with spare capacity), oracle = own flatten() + differential against a Flame built from the flat list",
+    "Registration programs are built on a Flame P and their own flat expansion (method, concatenated path, group handlers outermost first then own) on a Flame Q through Route(); for every registered path and all nine methods the handler-id trace, not-found and parameters of P must equal Q's and flatten's expectation, which covers group stack discipline, AutoHead scope, Routes/Any expansion and slice aliasing between sibling routes, groups and Combo methods; Combo must refuse a repeated method.",
+    "trusts flatten (50 lines, written from the statement); while AutoHead is on, GET is declared through Get/Combo.Get/Any only",
+    "DESIGN.md section 4 C11")
 
 PENDING = {}
 
